@@ -310,7 +310,8 @@ def setup_case(sc, scratch, d):
             name_ok = False
     exp["name_ok"] = name_ok
     exp["path_is_dir"] = False
-    if name_ok and not exp["cachedir_file"]:
+    aliased = spath is not None and spath == os.path.join(cdir, MCP_NAME[0])     # only in a repository where the alias exists
+    if name_ok and not exp["cachedir_file"] and not aliased:
         if cs[0] == "text":
             write_bytes(spath, cs[1].encode("utf-8", "surrogatepass"), age=cs[2])
             try:
